@@ -7,8 +7,8 @@ Sub-properties
           transport (bytes, str, .xml.gz file, plain .xml file) and every separator_insertion mode
           (True / None / False / int / str, optional enstags).  Round-trip oracle: central value exact (%1.16e),
           chain names by the documented separator rule, every configuration number, every fluctuation and replica
-          mean (2e-14 of the sample magnitude), covariance inputs (matrix and gradient 1e-13); subsequent
-          gamma_method identical when the chain names are restored.
+          mean (1e-14 of the sample magnitude), covariance inputs (matrix and gradient 2e-14 per entry); subsequent
+          gamma_method identical whenever the renaming keeps every chain in its ensemble.
   zeros   the same oracle on integer-valued (count-like) data: exact zeros, samples exactly equal to the mean,
           constant chains.
   pobs    lists of 1-4 primary observables of one ensemble on identical chains -> write_pobs -> read_pobs
@@ -44,20 +44,22 @@ ASSUMPTIONS = [
     'chain names are expected by the documented rule only: the writer removes "|", the reader re-inserts it per mode '
     '(True: after len(enstag) if the name starts with the enstag; int: at that position; str: before every occurrence; '
     'None/False: not at all) - a bare replica name "A" therefore comes back as "A|" under the default mode',
-    'central value of dobs files bitwise (%1.16e holds 17 digits); fluctuations and replica means within 2e-14 * '
-    '(|value| + |replica mean| + max|fluctuation|): the reader rebuilds sample = (delta + offset) + value, takes a new '
-    'replica mean and subtracts it, i.e. 3 roundings plus two pairwise means of <= 500 numbers, each relative to the sample magnitude',
-    'covariance matrices and gradients are written with %1.14e: 1e-13 relative per entry; a covariance input whose '
+    'central value of dobs files bitwise (%1.16e holds 17 digits); fluctuations and replica means within 1e-14 * '
+    '(|value| + |replica mean| + max|fluctuation|) + |mean of the exported fluctuations|: the reader rebuilds sample = '
+    '(delta + offset) + value, takes a new replica mean and subtracts it, i.e. 3 roundings plus a pairwise mean of <= 500 '
+    'numbers, each relative to the sample magnitude; the rounding-level mean of the exported fluctuations (inherited '
+    'from the primary data) legitimately moves into the replica mean; measured on 3000 cases: <= 3.3e-16 of the sample magnitude',
+    'covariance matrices and gradients are written with %1.14e (relative rounding <= 5e-15): 2e-14 relative per entry, zeros exact; a covariance input whose '
     'gradient is identically zero is equivalent to an absent one (the reader drops it)',
     'pobs holds primary observables of one ensemble only (value and replica means are recomputed from the samples): '
-    'central value within 2e-14 of the sample magnitude; a reader that would have to build a primary Obs over several '
+    'central value within 1e-14 of the sample magnitude; a reader that would have to build a primary Obs over several '
     'ensembles after the documented renaming may raise ValueError instead',
-    'error analysis is compared (rtol 1e-9 + 1e3 * rounding level of the fluctuations) only when the chain names are '
-    'restored, the windows agree (otherwise near-tie, skipped) and the fluctuations are not rounding-limited',
+    'error analysis is compared (rtol 1e-9 + 1e3 * rounding level of the fluctuations) only when every chain stays in '
+    'its ensemble under the documented renaming (results are per ensemble), the windows agree (otherwise counted as near-tie, not compared) and the fluctuations are not rounding-limited',
 ]
 
-TOL_DATA = 2e-14
-TOL_COV = 1e-13
+TOL_DATA = 1e-14
+TOL_COV = 2e-14
 
 F_ZERO = 'F-C12-1'      # sample that is exactly 0 lost by the dobs reader
 F_FALSE = 'F-C12-2'     # separator_insertion=False inserts a separator
@@ -80,7 +82,7 @@ MEAN_WIDE = st.one_of(st.just(0.0), _pow10(-8, 8), _pow10(-8, 8).map(lambda x: -
 SIGMA_WIDE = st.one_of(gen.fl(0.01, 2.0), _pow10(-8, 7))
 
 DOBS_MODES = [True, True, True, True, None, False, 'len', 'len', 1, 2, 3, 5, 'r', 'r', 'r1', 'x', '1', '_']
-POBS_MODES = [None, None, 'len', 'len', 'len', 1, 2, 4, 'r', 'r', 'r1', 'x', '1']
+POBS_MODES = [None, 'len', 'len', 'len', 'len', 1, 2, 4, 'r', 'r', 'r', 'r1', 'x', '1']
 TRANSPORTS = ['bytes', 'bytes', 'str', 'gz', 'gz', 'plain']
 TRANSFORMS = [None, None, None, 'sq', 'sin', 'mulprev']
 
@@ -270,6 +272,15 @@ def magnitude(o, n):
     return abs(float(o.value)) + abs(float(o.r_values[n])) + float(np.max(np.abs(o.deltas[n]), initial=0.0))
 
 
+def data_tol(o, n):
+    """Tolerance for fluctuations and replica mean of chain n.  Both formats store samples (fluctuation + offset) and the
+    readers take a new replica mean of them, so the rounding-level mean of the exported fluctuations (inherited from
+    the primary data, whose magnitude a derived observable no longer shows) is legitimately moved from the
+    fluctuations into the replica mean."""
+    d = np.asarray(o.deltas[n], dtype=float)
+    return TOL_DATA * magnitude(o, n) + (abs(float(np.mean(d))) if len(d) else 0.0)
+
+
 # ---------------------------------------------------------------------------------------------- comparison
 def compare(o, r, what, namemap, exact_value, check_cov=True):
     """o exported, r imported; namemap: original chain name -> expected chain name."""
@@ -280,7 +291,7 @@ def compare(o, r, what, namemap, exact_value, check_cov=True):
     if exact_value:
         require(float(r.value) == float(o.value), what + ': central value %r, exported %r' % (r.value, o.value))
     else:
-        require(abs(float(r.value) - float(o.value)) <= TOL_DATA * M, what + ': central value %r, exported %r' % (r.value, o.value))
+        require(abs(float(r.value) - float(o.value)) <= max([TOL_DATA * M] + [data_tol(o, n) for n in mc]), what + ': central value %r, exported %r' % (r.value, o.value))
     want = sorted(namemap[n] for n in mc)
     got = sorted(mc_chains(r))
     require(got == want, what + ': Monte-Carlo chains %r, expected %r (exported %r)' % (got, want, sorted(mc)))
@@ -294,7 +305,7 @@ def compare(o, r, what, namemap, exact_value, check_cov=True):
         require(r.shape[m] == len(a), what + ': shape[%s] = %r, expected %d' % (m, r.shape[m], len(a)))
         da, db = np.asarray(o.deltas[n], dtype=float), np.asarray(r.deltas[m], dtype=float)
         require(da.shape == db.shape, what + ': fluctuation array of %s has shape %r, expected %r' % (m, db.shape, da.shape))
-        tol = TOL_DATA * magnitude(o, n)
+        tol = data_tol(o, n)
         bad = np.where(~(np.abs(da - db) <= tol))[0]
         if len(bad):
             i = int(bad[0])
@@ -324,7 +335,7 @@ def compare_analysis(ol, rl, labs):
         eps = 0.0
         for n in mc:
             md = float(np.max(np.abs(o.deltas[n]), initial=0.0))
-            eps = max(eps, np.inf if md == 0 else TOL_DATA * magnitude(o, n) / md)
+            eps = max(eps, np.inf if md == 0 else data_tol(o, n) / md)
         if eps > 1e-7:
             labs.add('analysis:rounding_limited')
             continue
@@ -342,13 +353,16 @@ def compare_analysis(ol, rl, labs):
                     what + ': gamma_method raises on one side only: exported %r, imported %r' % (e1, e2))
             labs.add('analysis:undefined')
             continue
-        require(sorted(o.e_names) == sorted(r.e_names), what + ': e_names differ', o.e_names, r.e_names)
+        require(sorted(o.e_windowsize) == sorted(r.e_windowsize), what + ': analysed ensembles differ', sorted(o.e_windowsize), sorted(r.e_windowsize))
         if any(o.e_windowsize[e] != r.e_windowsize[e] for e in o.e_windowsize):
             labs.add('analysis:window_tie')
             continue
         rtol = 1e-9 + 1e3 * eps
         for f in ('e_dvalue', 'e_ddvalue', 'e_tauint', 'e_dtauint'):
             for e, v in getattr(o, f).items():
+                if e in o.covobs and not np.any(np.asarray(o.covobs[e].grad) != 0):
+                    continue   # covariance input with vanishing gradient: equivalent to an absent one
+                require(e in getattr(r, f), what + ': %s[%s] missing after import' % (f, e))
                 w = getattr(r, f)[e]
                 require(abs(v - w) <= rtol * max(abs(v), abs(w)) + 1e-300, what + ': %s[%s] of the imported object is %r, of the exported %r' % (f, e, w, v))
         for f in ('dvalue', 'ddvalue'):
@@ -430,18 +444,19 @@ def dobs_oracle(spec):
         shutil.rmtree(d, ignore_errors=True)
     require(isinstance(rl, list) and len(rl) == len(ol), 'import returned %d objects for %d exported' % (len(rl) if isinstance(rl, list) else -1, len(ol)))
     tags = spec.get('enstags') or {}
-    restored = True
+    restored = same_ens = True
     for i, (o, r) in enumerate(zip(ol, rl)):
         nm = {n: reinsert(stripped(n), spec['mode'], tags.get(n.split('|')[0], n.split('|')[0])) for n in mc_chains(o)}
         restored = restored and all(k == v for k, v in nm.items())
+        same_ens = same_ens and all(k.split('|')[0] == v.split('|')[0] for k, v in nm.items())
         compare(o, r, 'observable %d of %d' % (i, len(ol)), nm, exact_value=True)
     labs = layout_labels(spec, ol)
-    labs.add('names:restored' if restored else 'names:changed')
+    labs.add('names:restored' if restored else 'names:changed_same_ensembles' if same_ens else 'names:changed')
     if nz:
         labs.add('zero_sample')
     if nv:
         labs.add('sample_equals_value')
-    if restored:
+    if same_ens:
         compare_analysis(ol, rl, labs)
     nt = bool(nz) or any(x in labs for x in ('cfg_nested', 'cfg_overlap', 'cfg_disjoint', 'missing_replica',
                                              'partial_ensembles', 'disjoint_ensembles'))
@@ -484,28 +499,29 @@ def pobs_oracle(spec):
         require(isinstance(res, dict) and 'obsdata' in res, 'full_output=True did not return a dictionary with obsdata')
         res = res['obsdata']
     require(isinstance(res, list) and len(res) == len(ol), 'read_pobs returned %d objects for %d exported' % (len(res) if isinstance(res, list) else -1, len(ol)))
-    restored = True
+    restored = same_ens = True
     for i, (o, r) in enumerate(zip(ol, res)):
         nmi = {n: nm[n] for n in mc_chains(o)}
         restored = restored and all(k == v for k, v in nmi.items())
+        same_ens = same_ens and all(k.split('|')[0] == v.split('|')[0] for k, v in nmi.items())
         compare(o, r, 'observable %d of %d' % (i, len(ol)), nmi, exact_value=False, check_cov=False)
         require(not r.covobs, 'observable %d: covariance inputs appear in a pobs import' % i, sorted(r.covobs))
-    labs.add('names:restored' if restored else 'names:changed')
+    labs.add('names:restored' if restored else 'names:changed_same_ensembles' if same_ens else 'names:changed')
     if differ:
         labs.add('differ:%s:reproduced' % differ)
-    if restored:
+    if same_ens:
         compare_analysis(ol, res, labs)
     nt = len(ol) > 1 or len(names0) > 1 or 'idl:contig' not in labs or len(labs & {'idl:strided', 'idl:irregular', 'idl:irregular_rangelike'}) > 0
     return {'nt': nt, 'cls': sorted(labs)}
 
 
 SUBS = [
-    Sub('dobs', dobs_case, dobs_oracle, {'quick': 110, 'thorough': 2200}, {'quick': 10, 'thorough': 16},
+    Sub('dobs', dobs_case, dobs_oracle, {'quick': 200, 'thorough': 3000}, {'quick': 10, 'thorough': 16},
         doc='dobs round trip: differing layouts, covariance inputs, all transports and separator modes; analysis identical',
         max_skip_frac=0.5),
-    Sub('zeros', zeros_case, dobs_oracle, {'quick': 110, 'thorough': 2200}, {'quick': 3, 'thorough': 8},
+    Sub('zeros', zeros_case, dobs_oracle, {'quick': 200, 'thorough': 3000}, {'quick': 3, 'thorough': 8},
         doc='dobs round trip of integer-valued data with exact zeros / samples equal to the mean / constant chains',
         max_skip_frac=1.0),
-    Sub('pobs', pobs_case, pobs_oracle, {'quick': 150, 'thorough': 3000}, {'quick': 3, 'thorough': 8},
+    Sub('pobs', pobs_case, pobs_oracle, {'quick': 200, 'thorough': 3000}, {'quick': 3, 'thorough': 8},
         doc='pobs round trip of primary single-ensemble lists; lists with deviating chains are rejected or reproduced'),
 ]
